@@ -120,6 +120,34 @@ COMPOSITES = {
                    "lengths": [8, 16, 24]},
 }
 
+TBL = {"name": "tbl", "key_dop": U8, "rows": [
+    {"name": "r1", "key": 1, "structure": {"params": [V("a", U8), V("b", S8)]}},
+    {"name": "r2", "key": 2, "dop": U16},
+    {"name": "r7", "key": 7, "structure": {"params": [V("c", U16, bytepos=1), V("d", U8, bytepos=0)]}}]}
+DTCS = [{"name": "P0001", "code": 1}, {"name": "P0500", "code": 0x500}, {"name": "PFFFF", "code": 0xFFFFFF}]
+COMPOSITES.update({
+    "table": {"params": [SID, dict(kind="tablekey", name="tk", id="TK1", table=TBL),
+                         dict(kind="tablestruct", name="ts", key="TK1"), TAIL],
+              "rows": ["r1", "r2", "r7"]},
+    "table-row-ref": {"params": [SID, dict(kind="tablekey", name="tk", id="TK2", table=TBL, row="r1"),
+                                 dict(kind="tablestruct", name="ts", key="TK2"), TAIL],
+                      "rows": ["r1"]},
+    # SYSTEM parameters: supplied by the caller, or taken from the clock (a nondeterministic stub:
+    # arbitrary second/minute/hour/day/month/year within their documented ranges)
+    "system-supplied": {"params": [SID, dict(kind="system", name="sec", sysparam="SECOND", dop=U8),
+                                   dict(kind="system", name="yr", sysparam="YEAR", dop=U16), TAIL]},
+    "system-clock": {"params": [SID, dict(kind="system", name="sec", sysparam="SECOND", dop=U8),
+                                dict(kind="system", name="hr", sysparam="HOUR", dop=U8),
+                                dict(kind="system", name="dy", sysparam="DAY", dop=U8),
+                                dict(kind="system", name="mo", sysparam="MONTH", dop=U4, bitpos=4),
+                                dict(kind="system", name="yr", sysparam="YEAR", dop=U16),
+                                dict(kind="system", name="cent", sysparam="CENTURY", dop=U8), TAIL],
+                     "clock": True},
+    "dtc": {"params": [SID, V("d", dict(complex="dtc", dt="A_UINT32", bl=24, dtcs=DTCS)), TAIL]},
+    "dtc-lowhigh": {"params": [SID, V("pre", U8), V("d", dict(complex="dtc", dt="A_UINT32", bl=24,
+                                                                hl=False, dtcs=DTCS))]},
+})
+
 RESPONSES = {
     "matching-request": {"params": [C("sid", 0x62, bytepos=0),
                                     dict(kind="matchreq", name="echo", rqpos=1, len=2),
@@ -139,14 +167,26 @@ def gen_params(sx, params, path, shape, prop, omit=()):
             if nm in omit:
                 continue
             vals[nm] = gen_dop(sx, p["dop"], q, shape, prop)
+        elif p["kind"] == "system" and not shape.get("clock"):
+            vals[nm] = gen_dop(sx, p["dop"], q, shape, prop)
         elif p["kind"] == "lengthkey":
             vals[nm] = shape["length"]
+        elif p["kind"] == "tablestruct":
+            row = shape["row"]
+            key = [q for q in params if q["kind"] == "tablekey" and q["id"] == p["key"]][0]
+            r = [r for r in key["table"]["rows"] if r["name"] == row][0]
+            if r.get("structure"):
+                vals[nm] = (row, gen_params(sx, r["structure"]["params"], q + "." + row, shape, prop))
+            else:
+                vals[nm] = (row, gen_dop(sx, r["dop"], q + "." + row, shape, prop))
     return vals
 
 
 def gen_dop(sx, d, path, shape, prop):
     k = d.get("complex")
     nm = path.replace(".", "_").replace("[", "_").replace("]", "")
+    if k == "dtc":
+        return sx.int(nm, 0, (1 << d["bl"]) - 1)
     if k is None:
         if d.get("dct") == "paramlen":
             bl = shape["length"]
@@ -199,6 +239,11 @@ def ref_params(p, origin, cursor, params, vals, at_end, env):
             n = ref_dop(p, pos, bitpos, prm["dop"], v, at_end and last, env)
         elif k == "physconst":
             n = ref_dop(p, pos, bitpos, prm["dop"], prm["value"], at_end and last, env)
+        elif k == "system":
+            v = vals.get(nm)
+            if v is None:
+                v = env["clock"][prm["sysparam"]]
+            n = ref_dop(p, pos, bitpos, prm["dop"], v, at_end and last, env)
         elif k == "reserved":
             n = (bitpos + prm["bl"] + 7) // 8
             p.ensure(pos + n)
@@ -211,6 +256,25 @@ def ref_params(p, origin, cursor, params, vals, at_end, env):
             d = prm["dop"]
             n = p.put_field(pos, bitpos, d["bl"], vals[nm], d.get("hl") in (None, True))
             env.setdefault("lengths", {})[prm["id"]] = vals[nm]
+        elif k == "tablekey":
+            ts = [q for q in params if q["kind"] == "tablestruct" and q["key"] == prm["id"]]
+            row = vals[ts[0]["name"]][0] if ts else vals.get(nm)
+            if prm.get("row") is not None and row != prm["row"]:
+                raise odxref.Reject("row differs from TABLE-ROW-REF")
+            r = [r for r in prm["table"]["rows"] if r["name"] == row]
+            if not r:
+                raise odxref.Reject("unknown table row")
+            kd = prm["table"]["key_dop"]
+            n = p.put_field(pos, bitpos, kd["bl"], r[0]["key"], kd.get("hl") in (None, True))
+        elif k == "tablestruct":
+            key = [q for q in params if q["kind"] == "tablekey" and q["id"] == prm["key"]][0]
+            row, rv = vals[nm]
+            r = [r for r in key["table"]["rows"] if r["name"] == row][0]
+            if r.get("structure"):
+                n = ref_dop(p, pos, 0, dict(complex="structure", params=r["structure"]["params"]), rv,
+                            at_end and last, env)
+            else:
+                n = ref_dop(p, pos, bitpos, r["dop"], rv, at_end and last, env)
         else:
             raise ValueError(k)
         cursor = pos + n
@@ -220,6 +284,10 @@ def ref_params(p, origin, cursor, params, vals, at_end, env):
 
 def ref_dop(p, pos, bitpos, d, v, at_end, env):
     k = d.get("complex")
+    if k == "dtc":
+        if not s_or(*[v == x["code"] for x in d["dtcs"]]):
+            raise odxref.Reject("trouble code is not described")
+        return p.put_field(pos, bitpos, d["bl"], v, d.get("hl") in (None, True))
     if k is None:
         bl = d["bl"] if d.get("dct") != "paramlen" else env["lengths"][d["length_key"]]
         dom = odxref.int_domain(d["dt"], d.get("enc"), bl, v)
@@ -315,8 +383,18 @@ def expected(params, vals):
             out[nm] = _exp_dop(prm["dop"], prm.get("default") if v is None else v)
         elif k == "physconst":
             out[nm] = prm["value"]
+        elif k == "system":
+            out[nm] = vals.get(nm) if vals.get(nm) is not None else None
         elif k == "lengthkey":
             out[nm] = vals[nm]
+        elif k == "tablekey":
+            ts = [q for q in params if q["kind"] == "tablestruct" and q["key"] == prm["id"]]
+            out[nm] = vals[ts[0]["name"]][0]
+        elif k == "tablestruct":
+            key = [q for q in params if q["kind"] == "tablekey" and q["id"] == prm["key"]][0]
+            row, rv = vals[nm]
+            r = [r for r in key["table"]["rows"] if r["name"] == row][0]
+            out[nm] = (row, expected(r["structure"]["params"], rv) if r.get("structure") else rv)
         elif k == "reserved":
             out[nm] = None  # undescribed bits (or a covered termination value)
         elif k == "matchreq":
@@ -326,7 +404,7 @@ def expected(params, vals):
 
 def _exp_dop(d, v):
     k = d.get("complex")
-    if k is None:
+    if k is None or k == "dtc":
         return v
     if k == "structure":
         return expected(d["params"], v)
@@ -355,6 +433,8 @@ def require_same(sx, got, want, label, path=""):
         sx.require(isinstance(got, tuple) and len(got) == 2 and got[0] == want[0], label)
         require_same(sx, got[1], want[1], label, path)
         return
+    if hasattr(got, "trouble_code"):
+        got = got.trouble_code
     if isinstance(want, list):
         sx.require(isinstance(got, list) and len(got) == len(want), label)
         for i, (g, w) in enumerate(zip(got, want)):
@@ -386,6 +466,37 @@ def run_composite(sx, cfg, env):
     vals = gen_params(sx, spec["params"], "", shape, prop, omit=spec.get("omit", ()))
     renv = {}
     kwargs = {}
+    restore = None
+    if spec.get("clock"):
+        import odxtools.parameters.systemparameter as spm
+        clk = {"SECOND": sx.int("clk_second", 0, 59), "MINUTE": sx.int("clk_minute", 0, 59),
+               "HOUR": sx.int("clk_hour", 0, 23), "DAY": sx.int("clk_day", 1, 31),
+               "MONTH": sx.int("clk_month", 1, 12), "YEAR": sx.int("clk_year", 1, 9999)}
+        clk["CENTURY"] = clk["YEAR"] // 100
+        renv["clock"] = clk
+
+        class _Now:
+            second, minute, hour = clk["SECOND"], clk["MINUTE"], clk["HOUR"]
+            day, month, year = clk["DAY"], clk["MONTH"], clk["YEAR"]
+
+        class _DT:
+            @staticmethod
+            def now():
+                return _Now()
+
+        restore = (spm, spm.datetime)
+        spm.datetime = _DT
+    try:
+        return _run_composite(sx, cfg, env, obj, spec, prop, shape, vals, renv, kwargs)
+    finally:
+        if restore:
+            restore[0].datetime = restore[1]
+
+
+def _run_composite(sx, cfg, env, obj, spec, prop, shape, vals, renv, kwargs):
+    import warnings
+    from odxtools.exceptions import OdxError
+    from odxtools.decodestate import DecodeState
     if cfg["what"] == "response":
         rq = sx.bytes("request", shape["request_len"])
         renv["request"] = rq
@@ -446,6 +557,9 @@ def run_composite(sx, cfg, env):
     sx.observe("pdu", core.frozen(pdu))
     overlap_warned = any("verlap" in str(w.message) for w in wlist)
     want = expected(spec["params"], vals)
+    for prm in spec["params"]:
+        if prm["kind"] == "system" and vals.get(prm["name"]) is None and "clock" in renv:
+            want[prm["name"]] = renv["clock"][prm["sysparam"]]  # derived from the (stubbed) clock
 
     if prop in ("C01", "C04"):
         ds = DecodeState(coded_message=core.frozen(pdu))
@@ -485,7 +599,7 @@ def run_composite(sx, cfg, env):
         sx.require(core.frozen(pdu)[:len(pre)] == core.frozen(pre), "coded-const-prefix-is-a-prefix")
         req_names = sorted(p.short_name for p in obj.required_parameters)
         want_req = sorted(p["name"] for p in spec["params"]
-                          if p["kind"] == "value" and p.get("default") is None)
+                          if p["kind"] in ("value", "tablestruct") and p.get("default") is None)
         sx.require(req_names == want_req, "required-parameters-are-the-value-parameters-without-default")
 
 
@@ -521,9 +635,9 @@ REQUIRED_HARNESS = {"build": build_composite, "run": run_required, "width": 80,
 
 
 def shapes(spec):
-    base = {}
+    base = {"clock": True} if spec.get("clock") else {}
     out = [base]
-    for key, field in (("counts", "count"), ("cases", "case"), ("lengths", "length"),
+    for key, field in (("counts", "count"), ("cases", "case"), ("lengths", "length"), ("rows", "row"),
                        ("request_len", "request_len")):
         if key in spec:
             out = [dict(s, **{field: x}) for s in out for x in spec[key]]
@@ -543,7 +657,7 @@ def configs_for(prop, tier, seed):
         for name, spec in COMPOSITES.items():
             sh = shapes(spec)[-1]
             for p in spec["params"]:
-                if p["kind"] in ("value", "lengthkey"):
+                if p["kind"] in ("value", "lengthkey", "tablestruct"):
                     out.append({"id": f"required/{name}/drop-{p['name']}", "harness": "required",
                                 "what": "request", "name": name, "shape": sh, "drop": p["name"],
                                 "prop": prop, "build": {"what": "request", "name": name}})
